@@ -120,6 +120,7 @@ type zzvSlRig struct {
 	cbMu     sync.Mutex
 	cbs      []zzvCb
 	free     atomic.Bool // teardown: nothing is held any more
+	stalled  bool        // a poll goroutine reached no holding point within zzvSlWait
 	failPoll atomic.Bool // the OnPoll callback released next returns an error
 	npoll    int         // number of poll slots of the model
 	cfg      config.SleepConfig
@@ -321,8 +322,10 @@ func (r *zzvSlRig) await(pa *zzvPollAct) string {
 	case pt := <-pa.arrive:
 		return pt
 	case <-time.After(zzvSlWait):
-		r.t.Fatal("zzv: poll goroutine reached no holding point and did not return (scheduling point missing?)")
-		return ""
+		// not a verdict: the path is abandoned and counted; the check treats stalls without any real mismatch as an
+		// infrastructure failure (a changed Poll that blocks where the model has no holding point ends up here)
+		r.stalled = true
+		return "stalled"
 	}
 }
 
@@ -563,7 +566,7 @@ func TestZZVSleepReplay(t *testing.T) {
 	verifhook.Set(zzvSleepHook)
 	defer verifhook.Set(nil)
 	corrupt := zzvEnvInt("ZZV_CORRUPT", 0) // self-test of the binding: falsify one expected state
-	steps, mism, gated, fileReads := 0, 0, 0, 0
+	steps, mism, gated, fileReads, stalls := 0, 0, 0, 0, 0
 	for pi, path := range in.Paths {
 		var init zzvSlState
 		if err := json.Unmarshal(in.States[path.Init], &init); err != nil {
@@ -587,6 +590,11 @@ func TestZZVSleepReplay(t *testing.T) {
 				t.Fatal(err)
 			}
 			res, handoff := r.apply(a)
+			if r.stalled {
+				stalls++
+				zzvEmit("stall", map[string]any{"path": pi, "step": si, "a": st.A, "prefix": zzvSlActs(path.Steps[:si+1])})
+				break
+			}
 			cbs := r.takeCbs()
 			if a.Act == "PollEnd" && res == "ok" && len(cbs) == 0 {
 				res = "woken"
@@ -618,9 +626,12 @@ func TestZZVSleepReplay(t *testing.T) {
 			prevRaw = in.States[st.T]
 		}
 		r.destroy()
+		if stalls >= 3 { // every stall costs zzvSlWait: a changed Poll that blocks is established by now
+			break
+		}
 	}
 	zzvEmit("summary", map[string]any{"paths": len(in.Paths), "steps": steps, "mismatches": mism,
-		"poll_steps_through_gates": gated, "state_file_reads": fileReads})
+		"poll_steps_through_gates": gated, "state_file_reads": fileReads, "stalls": stalls})
 }
 
 func zzvSlActs(steps []zzvSlStep) []json.RawMessage {
